@@ -51,7 +51,7 @@ pub fn replay_other(prop: &str, kind: &str, case: &serde_json::Value) -> Result<
     if kind == "build-history" || kind == "rebuild-history" {
         return crate::sweep::replay_history(prop, kind, case);
     }
-    if kind == "history" || kind == "schedule" {
+    if kind == "history" || kind == "schedule" || kind == "tie-after" {
         return c14::replay(case);
     }
     if kind == "schedule-fine" {
